@@ -289,6 +289,59 @@ def _call_raw(name, obj, state, clients, is_agg, kw=False):
   return obj.apply(server_state=state, clients=clients) if kw else obj.apply(state, clients)
 
 
+class _Boom(Exception):
+  """raised on purpose by the harness half-way through a call"""
+
+
+class _RaisingSeq(list):
+  """A client list whose iteration raises after k clients (a cohort source that fails half-way)."""
+
+  def __init__(self, items, k):
+    super().__init__(items)
+    self._k = k
+
+  def __iter__(self):
+    for i, x in enumerate(list.__iter__(self)):
+      if i >= self._k:
+        raise _Boom('clients iterable failed after %d clients' % self._k)
+      yield x
+
+
+def _raising_gen(items, k):
+  for i, x in enumerate(items):
+    if i >= k:
+      raise _Boom('clients iterable failed after %d clients' % k)
+    yield x
+
+
+class _RaisingDataset:
+  """A client dataset whose batch iterators raise after the first batch (a client that fails during training)."""
+
+  def __init__(self, ds):
+    self._ds = ds
+    self.raw_examples = ds.raw_examples
+
+  def __len__(self):
+    return len(self._ds)
+
+  def _wrap(self, view):
+    def gen():
+      for b in view:
+        yield b
+        break
+      raise _Boom('client batches failed after the first batch')
+    return gen()
+
+  def shuffle_repeat_batch(self, *a, **k):
+    return self._wrap(self._ds.shuffle_repeat_batch(*a, **k))
+
+  def padded_batch(self, *a, **k):
+    return self._wrap(self._ds.padded_batch(*a, **k))
+
+  def batch(self, *a, **k):
+    return self._wrap(self._ds.batch(*a, **k))
+
+
 def _buffers(x):
   out = set()
   for l in _array_leaves(x):
@@ -437,6 +490,46 @@ def run(case):
       if r == case['branch']:
         restored = _serialise(state, case.get('ser', 'pickle'))
         post.append(tiny.same_values(tiny.snapshot(state), tiny.snapshot(restored)))
+    # ERROR RECOVERY: calls that fail half-way (the cohort source raises after 0 / 1 / n-1 clients; a client whose batches
+    # raise), the exception caught by the caller; then the SAME object, asked the recorded valid question again, must
+    # answer as before (state, diagnostics, num_bits), and the state it was given must be untouched
+    obs['recovery'] = []
+    j = next((r for r in range(nr) if len(case['rounds'][r]) >= 2), None)
+    if j is not None:
+      base = clients_of(j)
+      n = len(base)
+      fails = [('iter', k) for k in sorted({0, 1, n - 1})]
+      if not is_agg and any(len(c[1]) >= 3 for c in base):
+        fails.append(('batches', 0))
+      for kind, k in fails:
+        sb, cb = tiny.snapshot(states[j]), tiny.containers(states[j])
+        if kind == 'iter':
+          bad = _raising_gen(clients_of(j), k) if is_agg else _RaisingSeq(clients_of(j), k)
+        else:
+          cl = clients_of(j)
+          i0 = next(i for i, c in enumerate(cl) if len(c[1]) >= 3)
+          cl[i0] = (cl[i0][0], _RaisingDataset(cl[i0][1]), cl[i0][2])
+          bad = cl
+        raised = False
+        try:
+          _call_raw(name, obj, states[j], bad, is_agg, kw)
+        except _Boom:
+          raised = True
+        rec = {'kind': kind, 'k': k, 'raised': raised,
+               'state_same': tiny.same_snapshot(sb, tiny.snapshot(states[j])) and not tiny.writes(cb) and tiny.count_deleted(states[j]) == 0}
+        try:
+          sj, dj = _call(name, obj, states[j], clients_of(j), is_agg)
+          rec['answer_same'] = _same_out(outs[j], sj, dj)
+        except Exception as ex:
+          rec['answer_same'] = False
+          rec['err'] = type(ex).__name__ + ': ' + str(ex)[:120]
+        obs['recovery'].append(rec)
+      if not is_agg:      # an init() that fails (a leaf no optimizer can handle); init() again is checked below
+        try:
+          obj.init({'lin': {'b': 'not an array', 'w': object()}} if name != 'hyp_cluster' else [{'lin': {'b': 'x'}}, None])
+          obs['bad_init_raised'] = False
+        except Exception:
+          obs['bad_init_raised'] = True
     # every result the caller kept is still what it was when it was returned
     obs['kept_same'] = all(_same_out(o, s, d) and tiny.count_deleted(s) + tiny.count_deleted(d) == 0 for o, (s, d) in zip(outs, kept))
     # another object built in the same process from the same loss / grad functions with other hyper-parameters,
@@ -593,6 +686,13 @@ def oracle(case, obs):
     if obs.get('err_empty_cohort'):
       return [(n + '.empty-cohort-raises', f'{n}: apply() on an empty client selection raised {obs["err"]}')]
     return [(n + '.raises', f'{n}: apply raised {obs["err"]}')]
+  for rec in obs.get('recovery', []):
+    what = f'a call whose {"cohort source raised after %d clients" % rec["k"] if rec["kind"] == "iter" else "client batches raised"}'
+    if not rec['answer_same']:
+      out.append((n + '.failed-call-leaves-state', f'{n}: after {what} (exception caught), the same object answers a valid call differently '
+                  f'than before {rec.get("err", "")}'))
+    if not rec['state_same']:
+      out.append((n + '.input-state-changed', f'{n}: {what} changed / deleted the server state it was given'))
   if not obs.get('kept_same', True):
     out.append((n + '.result-invalidated', f'{n}: a result kept by the caller changed or was deleted by later calls'))
   if not obs.get('sibling_same', True):
